@@ -43,6 +43,13 @@ func rdConn(val transport.Conn) readerOption {
 	}
 }
 
+func rdQuit(val chan struct{}) readerOption {
+	return func(t *reader) error {
+		t.quit = val
+		return nil
+	}
+}
+
 func rdConnect(val chan interface{}) readerOption {
 	return func(t *reader) error {
 		t.connect = val
